@@ -61,17 +61,19 @@ Setup == /\ Len(vs) = 1 /\ step < Len(Names)
          /\ step' = step + 1
 
 \* --- edits ------------------------------------------------------------------
+\* names of added columns: they sort before, between and after the columns of the first version
+AddNames == {"a0", "x1", "x2"}
 Edits(v) ==
   LET ts == TNames(v) IN
   \* add a column
-  {[k |-> "addcol", t |-> t] : t \in {x \in ts : "x1" \notin CNames(v, x)}}
-  \cup {[k |-> "dropcol", t |-> t, c |-> c] : t \in ts, c \in {"k2", "n", "d", "r1", "r2", "x1"}}
-  \cup {[k |-> "retype", t |-> t, c |-> c] : t \in ts, c \in {"n", "d", "x1"}}
+  {[k |-> "addcol", t |-> tc[1], c |-> tc[2]] : tc \in {x \in ts \X AddNames : x[2] \notin CNames(v, x[1])}}
+  \cup {[k |-> "dropcol", t |-> t, c |-> c] : t \in ts, c \in {"k2", "n", "d", "r1", "r2", "x1", "x2", "a0"}}
+  \cup {[k |-> "retype", t |-> t, c |-> c] : t \in ts, c \in {"n", "d", "x1", "x2", "a0"}}
   \cup {[k |-> "addtable", t |-> Names[i]] : i \in {j \in DOMAIN Names : Names[j] \notin ts}}
   \cup {[k |-> "droptable", t |-> t] : t \in ts}
   \cup {[k |-> "togglekey", t |-> t, c |-> c] : t \in ts, c \in {"k2", "n"}}
-  \cup {[k |-> "addref", t |-> t, c |-> c] : t \in ts, c \in {"d", "x1", "n"}}
-  \cup {[k |-> "dropref", t |-> t, c |-> c] : t \in ts, c \in {"r1", "r2", "x1"}}
+  \cup {[k |-> "addref", t |-> t, c |-> c] : t \in ts, c \in {"d", "x1", "x2", "a0", "n"}}
+  \cup {[k |-> "dropref", t |-> t, c |-> c] : t \in ts, c \in {"r1", "r2", "x1", "x2", "a0"}}
   \cup {[k |-> "toggleautoinc", t |-> t] : t \in ts}
 
 Applicable(v, e) ==
@@ -92,8 +94,8 @@ Apply(v, e) ==
   CASE e.k = "addcol" ->
          LET tg == Targets(v, e.t)
              col == IF tg # {} /\ RandomElement(1..2) = 1
-                      THEN One({RefCol("x1", x[1], x[2], FALSE) : x \in {RandomElement(tg)}})
-                      ELSE PrimCol("x1", RandomElement({"int", "string", "date"}), RandomElement({0, 30}), RandomElement(1..5) = 1, FALSE)
+                      THEN One({RefCol(e.c, x[1], x[2], FALSE) : x \in {RandomElement(tg)}})
+                      ELSE PrimCol(e.c, RandomElement({"int", "string", "date"}), RandomElement({0, 30}), RandomElement(1..5) = 1, FALSE)
          IN SetTable(v, e.t, Append(Table(v, e.t).cols, col))
     [] e.k = "dropcol" -> SetTable(v, e.t, Without(Table(v, e.t).cols, e.c))
     [] e.k = "retype" ->
@@ -106,9 +108,17 @@ Apply(v, e) ==
     [] e.k = "dropref" -> MapCol(v, e.t, e.c, LAMBDA y : PrimCol(y.name, "int", 0, y.pk, FALSE))
     [] e.k = "toggleautoinc" -> MapCol(v, e.t, "id", LAMBDA x : [x EXCEPT !.autoinc = ~@])
 
+\* one step to the next version is one edit, or (sampling) up to three edits applied one after the other, so that a
+\* single delta can add several columns to one table, add a table and a reference to it, and so on
+RECURSIVE ApplySome(_, _)
+ApplySome(v, n) ==
+  IF n = 0 \/ {x \in Edits(v) : Applicable(v, x)} = {} THEN v
+  ELSE One({ApplySome(Apply(v, e), n - 1) : e \in {RandomElement({x \in Edits(v) : Applicable(v, x)})}})
+
 Edit == /\ Len(vs) >= 1 /\ step >= Len(Names) /\ step < Len(Names) + MaxEdits
         /\ \E e \in Pick({x \in Edits(Cur) : Applicable(Cur, x)}) :
-             vs' = Append(vs, Apply(Cur, e))
+             \E more \in (IF Sample THEN {RandomElement(0..2)} ELSE {0}) :
+               vs' = Append(vs, ApplySome(Apply(Cur, e), more))
         /\ step' = step + 1
 
 Emit == /\ step = Len(Names) + MaxEdits
